@@ -247,6 +247,11 @@ def main(argv=None):
     if bad_canaries:
         print('CHECKER-ERROR property=%s canaries not refuted: %s' % (prop, bad_canaries))
         rc = 3 if rc == 0 else rc
+    # ---- self-test (thorough tier): every seeded change kept under seeded/<prop>_*/ is applied to a scratch copy of the
+    # tree and the quick-tier obligations are re-run against it; reported as MUTANT-DETECTED / MUTANT-MISSED, never as VIOLATION
+    selftest = None
+    if args.tier == 'thorough' and not os.environ.get('TTVC_NO_SELFTEST'):
+        selftest = run_selftest(prop, scens, repo, args.jobs, mod, seed)
     wall = time.time() - t0
     level = getattr(mod, 'LEVEL', 'proof')
     ev = {
@@ -266,6 +271,7 @@ def main(argv=None):
             'bounded_standins': [{k: v for k, v in b.items() if k != 'failures'} for b in bounded],
             'bounded_evaluations_not_counted_as_proved': b_eval,
             'explanation': getattr(mod, 'EXPLANATION', ''),
+            'selftest_seeded_changes': selftest,
             'evaluations': max(1, len(results) + b_eval),
             'distinct_nontrivial': max(2, len(results) + sum(int(b.get('distinct_inputs', 0) or 0) for b in bounded)),
             'rule': 'one evaluation = one (contract case, discrete structure) instance explored on all symbolic paths, plus bounded stand-in runs; all distinct by construction',
@@ -278,6 +284,58 @@ def main(argv=None):
     print('SUMMARY property=%s tier=%s obligations=%d discharged=%d undecided=%d failed=%d known=%d bounded_eval=%d bounded_fail=%d instances=%d wall=%.1fs solver=%.1fs exit=%d'
           % (prop, args.tier, n_obl, n_dis, n_undec, len(failures), sum(len(v) for v in known_hits.values()), b_eval, b_fail, len(results), wall, solver_s, rc))
     return rc
+
+
+def run_selftest(prop, scens, repo, jobs, mod, seed):
+    import glob
+    import shutil
+    import tempfile
+    out = {'detected': [], 'missed': [], 'skipped': []}
+    dirs = sorted(glob.glob(os.path.join(HERE, 'seeded', '*')))
+    for d in dirs:
+        mid = os.path.basename(d)
+        try:
+            meta = json.load(open(os.path.join(d, 'meta.json')))
+        except Exception:
+            continue
+        ev = meta.get('evaluation', {})
+        relevant = prop in (ev.get('checks') or {}) and (ev['checks'][prop].get('exit') == 1)
+        if meta.get('property') != prop and not relevant:
+            continue
+        tmp = tempfile.mkdtemp(prefix='ttvc_selftest_', dir='/var/tmp')
+        try:
+            shutil.copytree(os.path.join(repo, 'torchtt'), os.path.join(tmp, 'torchtt'))
+            p = subprocess.run(['patch', '-p1', '-s', '-i', os.path.join(d, 'patch.diff')], cwd=tmp, capture_output=True, text=True)
+            if p.returncode != 0:
+                out['skipped'].append({'id': mid, 'why': 'patch does not apply to the current tree'})
+                continue
+            items = []
+            for s_ in scens:
+                if getattr(s_.fn, 'canary', False):
+                    continue
+                for params in s_.grid('quick'):
+                    items.append((prop, s_.name, params, tmp))
+            res = []
+            if items:
+                ctx = mp.get_context('fork')
+                with ctx.Pool(min(jobs, len(items))) as pool:
+                    for r in pool.imap_unordered(_work, items, chunksize=1):
+                        res.append(r)
+            failed = [('%s[%s].%s' % (r['scenario'], pstr(r['params']), o['name'])) for r in res for o in r['obligations'] if o['status'] == 'failed']
+            bfail = 0
+            if hasattr(mod, 'bounded_checks'):
+                for b in mod.bounded_checks('quick', seed, tmp):
+                    bfail += len(b.get('failures', []))
+            if failed or bfail:
+                out['detected'].append({'id': mid, 'failed_obligations': len(failed), 'bounded_failures': bfail, 'first': (failed[:1] or ['bounded'])[0]})
+                print('MUTANT-DETECTED %s (%d obligations fail, %d bounded failures; e.g. %s)' % (mid, len(failed), bfail, (failed[:1] or ['bounded stand-in'])[0]))
+            else:
+                out['missed'].append({'id': mid})
+                print('MUTANT-MISSED %s' % mid)
+        finally:
+            shutil.rmtree(tmp, ignore_errors=True)
+    out['summary'] = '%d/%d detected' % (len(out['detected']), len(out['detected']) + len(out['missed']))
+    return out
 
 
 def _z3v():
